@@ -163,7 +163,7 @@ func tokColCases(r *core.Run) {
 		// ---- reads: every stored token × every session × the column it was written to and another one
 		type read struct {
 			session, col int
-			wr          *tokWrite
+			wr           *tokWrite
 		}
 		var reads []read
 		for _, wr := range writes {
